@@ -191,6 +191,16 @@ def st_ll1_attempt(draw):
                 break
             lead = draw(st.sampled_from(cands))
             used |= {lead} if lead in terms else first[lead]
+            # a nullable later symbol may lead too, if a terminal that cannot start it (and is still free) follows:
+            # FIRST of the alternative then reaches *behind* the nullable prefix
+            nl_cands = [(b, t) for b in later if nullable[b] and not (first[b] & used)
+                        for t in terms if t not in first[b] and t not in used]
+            lead_seq = [lead]
+            if nl_cands and draw(st.integers(0, 2)) == 0:
+                used -= ({lead} if lead in terms else first[lead])
+                b, t = draw(st.sampled_from(nl_cands))
+                lead_seq = [b, t]
+                used |= first[b] | {t}
             rest = []
             for _ in range(draw(st.integers(0, 3))):
                 x = draw(st.sampled_from(list(terms) * 2 + later * 3 + [a]))
@@ -200,16 +210,23 @@ def st_ll1_attempt(draw):
                     ok = [t for t in terms if t not in first[x]]
                     if ok:
                         rest.append(draw(st.sampled_from(ok)))
-            alts.append([lead] + rest)
+            alts.append(lead_seq + rest)
         if draw(st.integers(0, 1)) == 0:
-            alts.insert(draw(st.integers(0, len(alts))), [])
+            # the (single) nullable alternative: empty, or a unit production to a nullable later symbol
+            units = [b for b in later if nullable[b] and not (first[b] & used)]
+            if units and draw(st.booleans()):
+                b = draw(st.sampled_from(units))
+                used |= first[b]
+                alts.insert(draw(st.integers(0, len(alts))), [b])
+            else:
+                alts.insert(draw(st.integers(0, len(alts))), [])
         d = []
         for alt in alts:
             if alt not in d:
                 d.append(alt)
         prods[a] = d
         first[a] = set(used)
-        nullable[a] = [] in d
+        nullable[a] = any(all(x in later and nullable[x] for x in alt) for alt in d)
     prods = {a: prods[a] for a in nts}
     return {"prods": prods, "start": "N0", "terms": list(terms)}
 
@@ -237,6 +254,21 @@ def st_follow_pattern(draw):
 
 
 @st.composite
+def st_unit_nullable_pattern(draw):
+    """LL(1) grammars with a unit production to a nullable symbol (A -> B, B -> b | empty) and another symbol whose
+    alternatives start with B resp. with a token that may follow A: FIRST(B) must not be polluted by FOLLOW(A)"""
+    ts = draw(st.permutations([k for k in gk.TERMINAL_KINDS if not k.startswith("KW_")]))[:4]
+    b, t, x, y = ts
+    b_alts = [[b], []] if draw(st.booleans()) else [[], [b]]
+    c_alts = [["N2", x], [t, y]] if draw(st.booleans()) else [[t, y], ["N2", x]]
+    a_alts = [["N2"]]
+    prods = {"N0": [["N1", t, "N3"]], "N1": a_alts, "N2": b_alts, "N3": c_alts}
+    if draw(st.booleans()):
+        prods["N0"] = [["N1", t, "N3"], [y]]
+    return {"prods": prods, "start": "N0", "terms": list(ts)}
+
+
+@st.composite
 def st_follow_chain(draw):
     """LL(1) grammars whose FOLLOW sets need several propagation steps: N0 -> N1 x ; N1 -> t1 N2 ; ... ; Nk -> tk | empty"""
     ts = draw(st.permutations([k for k in gk.TERMINAL_KINDS if not k.startswith("KW_")]))[:5]
@@ -260,7 +292,7 @@ def st_case(draw):
     if dom == "A":
         g = draw(st_ll1_grammar())
     elif dom == "F":
-        g = draw(st_follow_pattern())
+        g = draw(st_follow_pattern()) if draw(st.booleans()) else draw(st_unit_nullable_pattern())
     elif dom == "G":
         g = draw(st_follow_chain())
     else:
